@@ -104,14 +104,16 @@ class Check:
 
     # -- finishing
     def finish(self) -> int:
-        for rule, n in self.floors.items():
-            got = self.instances.get(rule, 0)
-            if got < n:
-                raise AnalysisError(
-                    f'rule {rule} matched {got} instances, fewer than the {n} confirmed by hand: '
-                    'the code moved out from under the rule (anchor vanished)')
         known, _fixed = load_known()
         bad = [o for o in self.obs if not o.ok]
+        if not [o for o in bad if (self.pid, o.rule, o.construct) not in known]:
+            # vacuity guard (only when nothing is reported anyway: a real finding is never hidden behind it)
+            for rule, n in self.floors.items():
+                got = self.instances.get(rule, 0)
+                if got < n:
+                    raise AnalysisError(
+                        f'rule {rule} matched {got} instances, fewer than the {n} confirmed by hand: '
+                        'the code moved out from under the rule (anchor vanished)')
         violations, knowns = [], []
         for o in bad:
             k = (self.pid, o.rule, o.construct)
